@@ -66,7 +66,7 @@ def registry():
     except ImportError:
         P = None
     reg['C03'] = dict(
-        rules=[T.rule_pb_sig, T.rule_pb_acc, T.rule_pb_out, T.rule_pb_view, T.rule_pb_ro, T.rule_pb_complete, T.rule_pb_pair, T.rule_setitem_copy, T.rule_pb_setitem_clear, T.rule_pb_rebind, T.rule_pb_dead, S.rule_const_all_coeffs, T.rule_pb_threshold] + ([G.rule_pb_grade('C03')] if G is not None else []),
+        rules=[T.rule_pb_sig, T.rule_pb_acc, T.rule_pb_out, T.rule_pb_view, T.rule_pb_ro, T.rule_pb_complete, T.rule_pb_pair, T.rule_setitem_copy, T.rule_pb_setitem_clear, T.rule_pb_rebind, T.rule_pb_dead, S.rule_const_all_coeffs, T.rule_pb_threshold, T.rule_pb_propagate] + ([G.rule_pb_grade('C03')] if G is not None else []),
         explanation='Static decision of the tracer<->pullback calling protocol every traced program depends on. '
                     'Decides: existence/arity/keyword/permutation agreement between each recorder site and UTPM.pb_<name> '
                     '(R-pb-sig); accumulate-never-overwrite into adjoint storage (R-pb-acc, via the E1 alias/effect analysis '
@@ -79,7 +79,7 @@ def registry():
                      'receiver classes by class-hierarchy analysis on method names (no type checker available)',
                      'Function.pullback dispatch expression as extracted by tracer_proto.dispatch_shape'])
     reg['C06'] = dict(
-        rules=[T.rule_pb_ro, T.rule_sweep_init, T.rule_sweep_balance, T.rule_setitem_copy, T.rule_x_writers, T.rule_drv_fresh, T.rule_seed_copy, T.rule_global, T.rule_doc] + ([G.rule_out_defined] if G is not None else []),
+        rules=[T.rule_pb_ro, T.rule_sweep_init, T.rule_sweep_balance, T.rule_setitem_copy, T.rule_x_writers, T.rule_drv_fresh, T.rule_seed_copy, T.rule_global, T.rule_doc, T.rule_pb_propagate, T.rule_graph_capture] + ([A.rule_class_state] if A is not None else []) + ([G.rule_out_defined] if G is not None else []),
         explanation='Static decision of the state discipline that makes results a function of the call\'s arguments only. '
                     'Decides: pullbacks never write forward values or incoming adjoints (R-pb-ro, E1 effects); adjoints are '
                     're-initialised unconditionally for every node before every sweep and xbar_from_x ignores the previous xbar '
@@ -90,7 +90,7 @@ def registry():
                     'equality of results across concrete histories.',
         assumptions=['library summary tables of verif/effects.py', 'the structural shape of CGraph.pullback (three top-level loops)'])
     if A is not None:
-        reg['C04'] = dict(rules=[A.rule_drv_order, T.rule_drv_fresh, T.rule_setitem_copy, A.rule_drv_flow, A.rule_drv_layout, T.rule_sweep_init],
+        reg['C04'] = dict(rules=[A.rule_drv_order, T.rule_drv_fresh, T.rule_setitem_copy, A.rule_drv_flow, A.rule_drv_layout, T.rule_sweep_init, T.rule_pb_propagate],
                           explanation='Static decision of the driver protocol. Decides: on every path of each of the 8 drivers '
                                       'forward evaluation precedes the reverse sweep which precedes the read of xbar/x '
                                       '(R-drv-order); the point x and every supplied vector flow into the forward seed / '
@@ -134,7 +134,7 @@ def registry():
             assumptions=['the weight calculus of DESIGN.md sec. 2.3 (an algebraic invariant of truncated power series)',
                          'kernel naming convention _NAME <-> NumPy/SciPy function NAME'])
         reg['C02'] = dict(
-            rules=[G.rule_grade('C02'), S.rule_kinds, S.rule_kernel_dtype, S.rule_reflect, G.rule_alias, S.rule_operand_order, S.rule_const_all_coeffs],
+            rules=[G.rule_grade('C02'), S.rule_kinds, S.rule_kernel_dtype, S.rule_reflect, G.rule_alias, S.rule_operand_order, S.rule_const_all_coeffs, S.rule_raw_broadcast],
             explanation='Static decision of structural conditions of the arithmetic operators: the convolution kernels and all eleven operator '
                         'bodies are homogeneous in the grading (O3: in particular a scalar/array constant meets coefficient 0 only for +,- '
                         'and every coefficient for *,/) with maximal ranges (O4); evidence rules on constants and result dtypes (C02.kinds); '
@@ -143,7 +143,7 @@ def registry():
             assumptions=['NumPy type-promotion and broadcasting semantics; the weight calculus'])
         reg['C07'] = dict(
             rules=[G.rule_grade('C07'), S.rule_linalg_kinds, S.rule_slice_ops, S.rule_compound,
-                   lambda ctx: S.rule_base(ctx, ['_inv', '_solve', '_solve_non_UTPM_x'], 'C07.base'), S.rule_wrap_order],
+                   lambda ctx: S.rule_base(ctx, ['_inv', '_solve', '_solve_non_UTPM_x'], 'C07.base'), S.rule_wrap_order, A.rule_class_state],
             explanation='Static decision of structural conditions of the linear-algebra kernels: dot/outer/inv/solve (all operand-kind '
                         'variants) are homogeneous (O3) with maximal ranges (O4); UTPM.dot/outer/solve select the kernel whose suffix names '
                         'the raw operand and pass .data / raw operands in kernel order (C07.kinds); det/logdet/Pade expm use only graded '
@@ -153,7 +153,7 @@ def registry():
         reg['C08'] = dict(
             rules=[G.rule_grade('C08'), lambda ctx: S.rule_base(ctx, ['_cholesky', '_qr_rectangular', '_qr_full', '_eigh1'], 'C08.base'),
                    _only(P.rule_p3, FACT, 'C08.dir-after'), _only(P.rule_p3b, FACT, 'C08.dir-carried'),
-                   _only(P.rule_paxis, FACT, 'C08.dir-const'), _only(P.rule_p4, FACT, 'C08.dir-joint'), _only(G.rule_out_defined, FACT, 'C08.out-defined'), S.rule_wrap_order, S.rule_cast_guard],
+                   _only(P.rule_paxis, FACT, 'C08.dir-const'), _only(P.rule_p4, FACT, 'C08.dir-joint'), _only(G.rule_out_defined, FACT, 'C08.out-defined'), S.rule_wrap_order, S.rule_cast_guard, A.rule_class_state],
             explanation='Static decision of structural conditions of the factorization recurrences: in _qr_rectangular, _qr_full, _cholesky, '
                         '_eigh1, lu, lu2, lu_factor every residual (dF, dG, H, S, K) and every factor coefficient is homogeneous of the order '
                         'being defined (O3) and the residual sums are maximal (O4); base points come from numpy.linalg.qr / scipy.linalg.qr / '
@@ -190,7 +190,7 @@ def registry():
             assumptions=['library summary tables of verif/effects.py'])
     if P is not None:
         reg['C11'] = dict(
-            rules=[P.rule_paxis, P.rule_batch, P.rule_p2, P.rule_p3, P.rule_p3b, P.rule_p4],
+            rules=[P.rule_paxis, P.rule_batch, P.rule_p2, P.rule_p3, P.rule_p3b, P.rule_p4] + ([S.rule_raw_broadcast] if S is not None else []),
             explanation='Static information-flow discipline of the direction axis: in every loop over directions the axis-1 subscript of a '
                         '(D,P,...) array is the loop variable and the loop covers range(P); constant direction indices only read shapes (P1); '
                         'element-wise kernels never subscript axis 1 (batch); work arrays allocated outside a p-loop are killed before their '
